@@ -35,7 +35,10 @@ COMPONENTS = {
                  "killed, still registered), root dying inside the checked-not-registered window (System.Stop / Kill(root)); each emits (schedule in machine labels, observed registry / child table by object "
                  "identity / state words) as a case which run_race replays on the machine; monitors tree-stale-root-child (regression of /repo b0e210b), "
                  "tree-orphan-under-dead-root (regression of /repo 6438ab6), tree; (d) every quiescent snapshot of (a) and (b) (<= 1200 nodes) is also a "
-                 "case for the model's consistency check (Race/Tree.v snap_violations)"),
+                 "case for the model's consistency check (Race/Tree.v snap_violations); (e) 0.6 s, own system: duplicate-name rounds (60 quick / 600 thorough) - 2-4 goroutines "
+                 "released from a barrier call System.ActorOf with the SAME explicit name and an OnPrelaunch of 1-3 ms, fresh name per round: exactly one call may succeed and its actor "
+                 "is the one registered and in the root's table (monitor tree-duplicate-name; theorem C10_tree_registration_unique), tree monitor at quiescence, every successful "
+                 "spawn sees its own OnKilled after System.Stop"),
     },
 }
 
@@ -45,7 +48,7 @@ PROPERTIES = {
         "pregen": ["bin/gen_access"],
         # `stop-failed` (System.Stop returned an error because some actor never terminated) is not a statement of C10
         # (C06 / C07 / C09 are about termination); it is reported in the evidence info but does not decide this property
-        "monitor_filter": r"^(data-race|harness-race|fatal|panic|hang|tree|tree-stale-root-child|tree-orphan-under-dead-root|table-stale|inventory|child-died)$",
+        "monitor_filter": r"^(data-race|harness-race|fatal|panic|hang|tree|tree-stale-root-child|tree-orphan-under-dead-root|tree-duplicate-name|table-stale|inventory|child-died)$",
         "rule": ("obligations: (1) the lock-set discipline and (3) the panic-site discipline evaluated by vm_compute on coq/Generated/AccessTable.v (access_table, "
                  "panic_table); (2) the tree theorems are by induction over all schedules of the actor-tree machine (no bound). Cases: one per forced schedule (non-trivial), one "
                  "per quiescent snapshot (non-trivial = at least one registered actor), the two inventories. Details of (1): regenerated before the Coq step from the tree "
